@@ -29,7 +29,7 @@ def words_for(rng, n, awkward=0.4, exclude=''):
 
 
 def en_token(rng, word):
-    return {'word': word, 'lemma': rng.choice([word.lower(), 'XX', 'be', word, '*', '']), 'pos': rng.choice(['NN', 'VBZ', 'DT', 'IN', ',', '.', 'XX', '_', 'PRP$', '-LRB-', '``']),
+    return {'word': word, 'lemma': rng.choice([word.lower(), 'XX', 'be', word, '*', '']), 'pos': rng.choice(['NN', 'VBZ', 'DT', 'IN', ',', '.', 'XX', '_', 'PRP$', '-LRB-', '``', '(', ')', '-RRB-', '{', ']', 'a>b']),
             'entity': rng.choice(['O', 'I-PER', 'XX']), 'chunk': rng.choice(['I-NP', 'I-VP', 'XX'])} if rng.random() < 0.8 else _with_extra(rng, {
                 'word': word, 'lemma': word.lower(), 'pos': 'NN', 'entity': 'O', 'chunk': 'I-NP'})
 
